@@ -2,7 +2,7 @@
    Model: coq/C14/Model.v (routines of src/particle.c in their order of checks); specification: a plain
    particle list with N_active / N_var / tree-present ([astate], [res_ok], [aspec]). *)
 From Coq Require Import List ZArith NArith Bool Arith Lia.
-From RV Require Import C14.Murmur C14.Model C14.ProofsA C14.ProofsB C14.ProofsC.
+From RV Require Import C14.Murmur C14.Model C14.ProofsA C14.ProofsB C14.ProofsC C14.PyLayer C14.Hybrid.
 Import ListNotations.
 Close Scope N_scope.
 
@@ -53,6 +53,59 @@ Theorem C14_nactive_consistent : forall s o s' r, wf s -> nact_ok (abs s) -> use
   step s o = (s', r) -> nact_ok (abs s').
 Proof. exact nact_consistent. Qed.
 Print Assumptions C14_nactive_consistent.
+
+(* ---- Python container (rebound/particles.py) as a thin layer over the model: coq/C14/PyLayer.v *)
+(* reads (int / negative / c_uint32 / str keys), `del sim.particles[k]` (a no-op in the source), slices
+   and len never change the simulation and touch nothing outside the storage *)
+Theorem C14_py_readonly : forall s o s' r, wf s ->
+  match o with PyGet _ | PyDelItem _ | PySlice _ _ _ | PyLen => True | _ => False end ->
+  py_step s o = (s', r) -> wf s' /\ oob s' = oob s /\ abs s' = abs s.
+Proof. exact py_readonly. Qed.
+Print Assumptions C14_py_readonly.
+
+(* a slice (CPython slice.indices + range) only yields indices of existing particles *)
+Theorem C14_py_slice_in_range : forall n a b c x, (c <> 0)%Z -> In x (py_slice n a b c) -> x < n.
+Proof. exact py_slice_in_range. Qed.
+Print Assumptions C14_py_slice_in_range.
+
+(* sim.particles[k] = p overwrites exactly the particle denoted by k (an index, or a particle carrying
+   the hash); an unresolvable key raises and changes nothing *)
+Theorem C14_py_setitem : forall s k p s' r, wf s -> py_step s (PySet k p) = (s', r) ->
+  wf s' /\ oob s' = oob s /\
+  ((r = PRNone /\ exists i, i < length (aps (abs s)) /\
+      (match k with KInt z => py_index (length (aps (abs s))) z = Some i
+                  | _ => Some (phash (nth i (aps (abs s)) pzero)) = key_hash k end) /\
+      abs s' = mkA (upd (aps (abs s)) i p) (aNact (abs s)) (aNvar (abs s)) (atree (abs s)))
+   \/ ((r = PRAttributeError \/ r = PRNotFound) /\ abs s' = abs s)).
+Proof. exact py_setitem. Qed.
+Print Assumptions C14_py_setitem.
+
+(* ---- MERCURIUS bookkeeping of reb_simulation_remove_particle, dcrit part: coq/C14/Hybrid.v *)
+(* out-of-range index / variational particles: particles AND dcrit untouched *)
+Theorem C14_merc_invalid_untouched : forall s h z, ((z < 0 \/ Z.of_nat (sN s) <= z)%Z \/ sNvar s <> 0) ->
+  merc_remove s h z = (s, h, RFail).
+Proof. exact merc_invalid_untouched. Qed.
+Print Assumptions C14_merc_invalid_untouched.
+
+(* the dcrit shift stays inside dcrit when dcrit covers all particles ... *)
+Theorem C14_merc_dcrit_safe_partial : forall s h z s' h' r, sN s <= length (dcrit h) ->
+  merc_remove s h z = (s', h', r) -> hoob h' = hoob h.
+Proof. exact merc_dcrit_safe_partial. Qed.
+Print Assumptions C14_merc_dcrit_safe_partial.
+
+(* ... and reads/writes past it otherwise (particles added since the last step: N_allocated_dcrit < N).
+   Witness N_allocated_dcrit = 3, N = 5, index 0; confirmed on the library by AddressSanitizer. *)
+Theorem C14_merc_dcrit_safe_refuted : exists s h z s' h' r,
+  wf s /\ (0 <= z < Z.of_nat (sN s))%Z /\ hoob h = 0 /\ merc_remove s h z = (s', h', r) /\ r = RRemoved 0 /\ 0 < hoob h'.
+Proof. exact merc_dcrit_safe_refuted. Qed.
+Print Assumptions C14_merc_dcrit_safe_refuted.
+
+(* a removal refused because a tree exists (keep_sorted is forced for MERCURIUS) fails and leaves the
+   particles alone, but dcrit has already been shifted. Confirmed on the library. *)
+Theorem C14_merc_refused_untouched_refuted : exists s h z s' h' r,
+  merc_remove s h z = (s', h', r) /\ r = RFail /\ s' = s /\ dcrit h' <> dcrit h.
+Proof. exact merc_refused_untouched_refuted. Qed.
+Print Assumptions C14_merc_refused_untouched_refuted.
 
 (* Non-vacuity: a reachable state with a STALE lookup table (4 entries for 3 particles: (9 -> slot 3) points
    past N, (5 -> slot 0) points at a particle that now carries hash 0), reached through an unsorted removal of
